@@ -29,6 +29,10 @@ MUTANTS = {
     "map_mangled_const": ("recode.py", 'map_mangled = f"___MAP{ovld.id}"', 'map_mangled = "___MAP_"', ["C08"]),
     "adapt_memo": ("recode.py", "def adapt_function(fn, ovld, newname):\n    \"\"\"Create a copy of the function with a different name.\"\"\"\n",
                    "_memo = {}\n\n\ndef adapt_function(fn, ovld, newname):\n    if fn not in _memo:\n        _memo[fn] = _adapt_function(fn, ovld, newname)\n    return _memo[fn]\n\n\ndef _adapt_function(fn, ovld, newname):\n", ["C08"]),
+    # ---- C17
+    "ext_first_base_only": ("core.py", "                for other in others:\n                    prev.add_mixins(other)\n", "", ["C17"]),
+    "ext_no_copy": ("core.py", "                prev = prev.copy()\n                for other in others:", "                for other in others:", ["C17"]),
+    "ext_reverse_bases": ("core.py", "                prev, *others = mixins\n", "                prev, *others = mixins[::-1]\n", ["C17"]),
     # ---- C14
     "subtler_no_generic": ("utils.py", "    if isinstance(obj, GenericAlias):\n        return type[obj]\n    elif isinstance(obj, UnionTypes)", "    if isinstance(obj, UnionTypes)", ["C14"]),
     "lookup_always_type": ("core.py", "return subtler_type if key in self.complex_transforms else type",
